@@ -10,7 +10,7 @@ import manifest_data as md
 props = [json.loads(l)["id"] for l in open(os.path.join(HERE, "..", "properties.jsonl"))]
 checks = []
 for pid in props:
-    if pid in md.CHECKS:
+    if pid in md.CHECKS and not md.CHECKS[pid].get('withdrawn'):
         d = md.CHECKS[pid]
         checks.append({
             "property_id": pid,
@@ -23,7 +23,7 @@ for pid in props:
             "level_note": d["note"],
             "technique": d["technique"],
         })
-na = [{"property_id": p, "reason": md.NOT_APPLICABLE.get(p, "no check built yet in this round; planned (DESIGN.md section 9.1)")} for p in props if p not in md.CHECKS]
+na = [{"property_id": p, "reason": (md.CHECKS.get(p) or {}).get("withdrawn") or md.NOT_APPLICABLE.get(p, "no check built yet in this round; planned (DESIGN.md section 9.1)")} for p in props if p not in md.CHECKS or md.CHECKS[p].get("withdrawn")]
 m = {
     "version": 1,
     "setup_cmd": "bin/setup",
